@@ -30,7 +30,10 @@ PARTIAL = ["conservation is decided per run by the dense oracle; proved are the 
            "Ptn.C07.two_site_update_conserves_norm_of_canonical discharges the isometry hypothesis from canonical form "
            "(index-form isometry condition on every node outside the updated pair, Ptn.Ein.Kids.Canon); that the state "
            "held by the algorithm is in that form is validated after the last step of every case (index form on every "
-           "node 1e-10, einsum environment of the centre = identity; zero-padded bonds: projector), not proved",
+           "node 1e-10, einsum environment of the centre = identity; zero-padded bonds: projector); proved on valued "
+           "networks only around the node a before every two a b event (Ptn.C07.two_site_update_kids_canon_partial: "
+           "Kids.Canon of the tree re-rooted at a from the per-split contracts of the run), the doubled tree around the "
+           "merged pair is not assembled and truncating SVDs are outside the value-level step",
            "structure: proved on the C02 structural model under well-formedness and the label invariant "
            "(Ptn.C06.two_site_update_structure, tdvp_step_structure: root, identifiers, parents kept, the lower node "
            "becomes the first child of the upper one, every node keeps exactly its open axes for any truncated bond; "
